@@ -233,19 +233,34 @@ def load_known() -> List[dict]:
     return out
 
 
+def json_safe(o: Any) -> Any:
+    """inf / nan are not JSON: write them as strings so evidence and replay files stay valid JSON."""
+    if isinstance(o, float):
+        if math.isnan(o):
+            return "nan"
+        if math.isinf(o):
+            return "inf" if o > 0 else "-inf"
+        return o
+    if isinstance(o, dict):
+        return {str(k): json_safe(v) for k, v in o.items()}
+    if isinstance(o, (list, tuple)):
+        return [json_safe(v) for v in o]
+    return o
+
+
 def write_replay(pid: str, payload: dict) -> str:
     os.makedirs(REPLAYS, exist_ok=True)
     h = case_hash(payload)
     path = os.path.join(REPLAYS, f"{pid}-{h}.json")
     with open(path, "w") as f:
-        json.dump(payload, f, indent=1, sort_keys=True, default=str)
+        json.dump(json_safe(payload), f, indent=1, sort_keys=True, default=str, allow_nan=False)
     return os.path.relpath(path, VERIF)
 
 
 def write_evidence(pid: str, ev: dict) -> None:
     os.makedirs(EVIDENCE, exist_ok=True)
     with open(os.path.join(EVIDENCE, f"{pid}.json"), "w") as f:
-        json.dump(ev, f, indent=1, sort_keys=True, default=str)
+        json.dump(json_safe(json.loads(json.dumps(ev, default=str))), f, indent=1, sort_keys=True, allow_nan=False)
 
 
 def now() -> float:
